@@ -1,5 +1,5 @@
 SPECIFICATION Spec
-CONSTANTS MaxEv = 5  NoSchedOn = FALSE  OwnDefault = TRUE
+CONSTANTS MaxEv = 5  NoSchedOn = FALSE  OwnDefault = TRUE  FetchOn = FALSE
   Zones <- ZonesC  Vers <- VersC  NF <- NFc  ZoneOf <- ZoneOfC
 CONSTRAINT Bound
 INVARIANT SameOrNone
